@@ -258,7 +258,7 @@ func zzGen(mask int, depth int, allowNullable bool) (*schemas.Type, *zzSpec) {
 		}
 		s.items = &zzSpec{kind: e}
 	}
-	if zzvrt.Param("DEFAULTS", 0) == 1 && zzvrt.Bool() {
+	if zzvrt.Param("DEFAULTS", 0) == 1 && !(zzvrt.Param("NONULL", 0) == 1 && s.nullable) && zzvrt.Bool() {
 		switch s.kind {
 		case "string":
 			if s.format == "" {
@@ -289,4 +289,68 @@ func zzGen(mask int, depth int, allowNullable bool) (*schemas.Type, *zzSpec) {
 		}
 	}
 	return t, s
+}
+
+// zzCloneType deep-copies a schema (sharing the symbolic leaves' values).
+func zzCloneType(t *schemas.Type) *schemas.Type {
+	if t == nil {
+		return nil
+	}
+	c := *t
+	cpF := func(p *float64) *float64 {
+		if p == nil {
+			return nil
+		}
+		v := *p
+		return &v
+	}
+	cpA := func(p *any) *any {
+		if p == nil {
+			return nil
+		}
+		v := *p
+		return &v
+	}
+	c.Minimum, c.Maximum, c.MultipleOf = cpF(t.Minimum), cpF(t.Maximum), cpF(t.MultipleOf)
+	c.ExclusiveMinimum, c.ExclusiveMaximum = cpA(t.ExclusiveMinimum), cpA(t.ExclusiveMaximum)
+	c.Items = zzCloneType(t.Items)
+	if t.AnyOf != nil {
+		c.AnyOf = nil
+		for _, b := range t.AnyOf {
+			c.AnyOf = append(c.AnyOf, zzCloneType(b))
+		}
+	}
+	if t.AllOf != nil {
+		c.AllOf = nil
+		for _, b := range t.AllOf {
+			c.AllOf = append(c.AllOf, zzCloneType(b))
+		}
+	}
+	c.AdditionalProperties = zzCloneType(t.AdditionalProperties)
+	if t.Properties != nil {
+		c.Properties = map[string]*schemas.Type{}
+		for k, v := range t.Properties {
+			c.Properties[k] = zzCloneType(v)
+		}
+	}
+	if t.Enum != nil {
+		c.Enum = append([]interface{}{}, t.Enum...)
+	}
+	c.Type = append(schemas.TypeList{}, t.Type...)
+	if len(t.Type) == 0 {
+		c.Type = nil
+	}
+	c.Required = append([]string{}, t.Required...)
+	if len(t.Required) == 0 {
+		c.Required = nil
+	}
+	return &c
+}
+
+func zzCloneDefs(m map[string]*schemas.Type) map[string]*schemas.Type {
+	out := map[string]*schemas.Type{}
+	for k, v := range m {
+		out[k] = zzCloneType(v)
+	}
+	return out
 }
